@@ -1,7 +1,7 @@
 """Spec vocabulary for C12: the textual form of one matching pattern (terminal quoting and the four control-code escapes)."""
 from __future__ import annotations
 
-from pyvc.api import const, external, record, spec, implies
+from pyvc.api import const, external, record, ref, spec, implies
 
 RULE = 'rogw/tranp/implements/syntax/tranp/rule.py'
 
@@ -14,6 +14,9 @@ REGEXP = const('REGEXP', _Comps.Regexp.value)
 EQUALS = const('EQUALS', _Comps.Equals.value)
 SYMBOL = const('SYMBOL', _Roles.Symbol.value)
 TERMINAL = const('TERMINAL', _Roles.Terminal.value)
+ref('PatEntry')
+ref('Memo')
+record('Rules', {'_rules': 'dict[str, PatEntry]', '_memo': 'Memo'}, source=(RULE, 'Rules'))
 record('Pattern', {'_expression': 'str', '_role': 'int', '_comp': 'int'}, source=(RULE, 'Pattern'))
 
 external('is_word', [('s', 'str')], 'bool', axioms=[
@@ -43,3 +46,13 @@ def printed(e: str, comp: int) -> str:
 	if comp == EQUALS:
 		return '"' + e + '"'
 	return e
+
+
+@spec
+def unwrap_of(r: Rules, name: str) -> str:
+	"""The unwrap marker under which a symbol's rule is stored: none ('off'), [1] or [*]."""
+	if name in r._rules:
+		return 'off'
+	if name + '[1]' in r._rules:
+		return '1'
+	return '*'
